@@ -94,6 +94,24 @@ def _work(item):
     changed = [k for (obj, was, k) in out["rec"].extra.get("cb_kept", []) if not np.array_equal(np.asarray(obj, float), was, equal_nan=True)]
     summ["callback_arrays_modified_later"] = changed[:3]
     summ["callback_arrays_kept"] = len(out["rec"].extra.get("cb_kept", []))
+    # the points handed to the callback are points of the user's space inside the user's bounds
+    b = desc.get("bounds")
+    n = len(desc["x0"])
+    cv = lambda v: np.inf if v in ("inf", "nan") else -np.inf if v == "-inf" else float(v)
+    lb = np.array([(-np.inf if v == "nan" else cv(v)) for v in b["lb"]]) if b else np.full(n, -np.inf)
+    ub = np.array([cv(v) for v in b["ub"]]) if b else np.full(n, np.inf)
+    lb, ub = np.where(np.isnan(lb), -np.inf, lb), np.where(np.isnan(ub), np.inf, ub)
+    summ["callback_points_checked_in_bounds"] = 0
+    if lb.shape == (n,) and ub.shape == (n,) and bool(np.all(lb <= ub)):
+        k = 0
+        for kind, a in out["rec"].user_calls:
+            if kind != "cb":
+                continue
+            k += 1
+            summ["callback_points_checked_in_bounds"] += 1
+            if a.shape != (n,) or not (np.all(lb <= a) and np.all(a <= ub)):
+                summ["callback_point_outside"] = {"call": k, "x": [float(t) for t in a.ravel()], "lb": [float(t) for t in lb], "ub": [float(t) for t in ub]}
+                break
     return summ
 
 
